@@ -88,7 +88,15 @@ func (pw *packetWriter) Write(p []byte) (n int, err error) {
 func (pw *packetWriter) ReadFrom(r io.Reader) (n int64, err error) {
 	buf := pw.pkt[:]
 	for {
-		nr, er := r.Read(buf)
+		// a reader may return a packet in several pieces: keep reading until the
+		// packet buffer is full or the reader reports an error
+		var nr int
+		var er error
+		for nr < PacketSize && er == nil {
+			var m int
+			m, er = r.Read(buf[nr:])
+			nr += m
+		}
 		if nr == PacketSize {
 			nw, ew := pw.WritePacket(&pw.pkt)
 			if nw > 0 {
